@@ -101,6 +101,8 @@ func pricingText(name string) string {
 		return `{"price":"3stake","promotions_by_volume":[{"volume":1,"discount":"0.7"},{"volume":2,"discount":"0.4"}]}`
 	case "p1t":
 		return fmt.Sprintf(`{"price":"1stake","promotions_by_time":[{"start_time":"%s","end_time":"%s","discount":"0.5"}]}`, ts(2), ts(4))
+	case "p1tp": // a time promotion that ended before the chain started
+		return fmt.Sprintf(`{"price":"1stake","promotions_by_time":[{"start_time":"%s","end_time":"%s","discount":"0.5"}]}`, ts(-10), ts(-5))
 	case "p4t":
 		return fmt.Sprintf(`{"price":"4stake","promotions_by_time":[{"start_time":"%s","end_time":"%s","discount":"0.5"}]}`, ts(1), ts(3))
 	case "p4tr": // two disjoint windows listed newest first (rejected by the unmodified module)
@@ -115,6 +117,12 @@ func pricingText(name string) string {
 		return `{"price":"20stake"}`
 	case "p100":
 		return `{"price":"100stake"}`
+	case "p4v7": // 4 -> 2.8 after the first response: fraction above one half
+		return `{"price":"4stake","promotions_by_volume":[{"volume":1,"discount":"0.7"}]}`
+	case "p5v3": // 5 -> 1.5 after the first response: fraction of exactly one half above an odd number
+		return `{"price":"5stake","promotions_by_volume":[{"volume":1,"discount":"0.3"}]}`
+	case "p1h": // published with a fraction below the smallest unit: stored as 1
+		return `{"price":"1.5stake"}`
 	case "p1x": // an extra property inside a promotion: the pricing schema refuses it, the keeper's parser would not notice
 		return `{"price":"1stake","promotions_by_volume":[{"volume":1,"discount":"0.5","note":"x"}]}`
 	case "p1d": // a "discount" above 1: refused by the schema only
@@ -235,7 +243,10 @@ func (t Template) capCoins() sdk.Coins {
 
 // actBindBig: a binding whose price and deposit are beyond int64 (decimal strings).
 func actBindBig(svc, prov, owner, dep, price string, qos uint64) Action {
-	pt := `{"price":"` + price + `stake"}`
+	return actBindBigText(svc, prov, owner, dep, price, `{"price":"`+price+`stake"}`, qos)
+}
+
+func actBindBigText(svc, prov, owner, dep, price, pt string, qos uint64) Action {
 	return Action{Name: fmt.Sprintf("bind(%s,%s,%s,%s,price %s,q%d)", svc, prov, owner, dep, price, qos), Kind: "bind", Svc: svc, Prov: A(prov), Signer: A(owner),
 		Pricing: pt, QoS: qos, Tmpl: -1,
 		Msg: st.NewMsgBindService(svc, A(prov), bigCoins(dep), pt, qos, "{}", A(owner))}
